@@ -34,7 +34,8 @@ LEVEL_TEXT = ("Decided: the argument-independent clauses - constant result range
               "helpers pick the right corner per coefficient sign, bounds pushed down from a result to its arguments are "
               "sound for the constraint kind.  Not decided: numeric soundness of the "
               "data-dependent ranges (pow, div, quadratic, piecewise-linear) for all argument domains, incl. "
-              "rounding; the deliberate restriction of log's argument to x >= 1e-6.")
+              "rounding; the deliberate restriction of log's argument to x >= 1e-6."
+              "  Also decided (round 7): the result bounds of a quotient with a sign-definite denominator contain all corner quotients (sample boxes); fractional right-hand sides are rounded in the direction that keeps the integer solutions.")
 LEVEL_NOTE = "Trusted: clang 14 front end/CFG, tool/mpx.cc, the rule module and its reference table of function ranges."
 DESIGN_REF = "DESIGN.md section 4, C06"
 EXPLANATION = ("Unit: the visitor flat-converter unit (43 PreprocessConstraint instantiations, helpers, PreprocessInfo, "
